@@ -7,8 +7,10 @@ set_option linter.unusedVariables false  -- uniform lemma signatures
 
 namespace Conserve.Proto
 
+/-- `B.mkdir` has been performed (`refused2`: the backup refused at its second lock check, its
+band stays behind). -/
 def BPc.mkdirDone : BPc → Bool
-  | .head | .listBlocks | .blocks | .tail | .done | .failed => true
+  | .head | .lockCheck2 | .listBlocks | .blocks | .tail | .done | .refused2 | .failed => true
   | _ => false
 
 def BPc.listIdDone : BPc → Bool
@@ -43,6 +45,7 @@ def isNew (p : State) (b : Band) : Prop := p.b.pc.mkdirDone = true ∧ b.id = p.
 structure Inv1 (c : Config) (p : State) : Prop where
   needed : p.b.needed = c.needed
   del : p.g.del = c.del
+  recheck : p.b.recheck = c.recheck
   todoBlocks : ∀ g ∈ p.g.todoBlocks, g ∈ p.g.unref
   todoBands : ∀ i ∈ p.g.todoBands, i ∈ c.del
   todoEmpty : p.g.passed = false → p.g.todoBlocks = [] ∧ p.g.todoBands = []
@@ -60,14 +63,14 @@ theorem Inv1.start (c : Config) : Inv1 c c.start := by
   constructor <;> simp [Config.start, GPc.locked, BPc.mkdirDone, mkdirBeforeCheck]
 
 theorem Inv1.presB {c : Config} {p : State} (h : Inv1 c p) : Inv1 c (stepB p) := by
-  obtain ⟨h1, h2, h3, h4, h4', h5, h5', h6, h7, h7', h7'', h8, h9⟩ := h
+  obtain ⟨h1, h2, h2r, h3, h4, h4', h5, h5', h6, h7, h7', h7'', h8, h9⟩ := h
   unfold stepB
   repeat' split
   all_goals constructor
   all_goals simp_all [BPc.mkdirDone]
 
 theorem Inv1.presG {c : Config} {p : State} (h : Inv1 c p) : Inv1 c (stepG p) := by
-  obtain ⟨h1, h2, h3, h4, h4', h5, h5', h6, h7, h7', h7'', h8, h9⟩ := h
+  obtain ⟨h1, h2, h2r, h3, h4, h4', h5, h5', h6, h7, h7', h7'', h8, h9⟩ := h
   unfold stepG
   repeat' split
   all_goals constructor
